@@ -243,6 +243,8 @@ pub fn impl_(ctx: &Context, input: &DeriveInput) -> TokenStream {
             });
             quote! {
                 let __flatty_offset = 0;
+                let __flatty_len = ::flatty::utils::floor_mul(__flatty_bytes.len(), <#self_ident<#self_args>>::ALIGN);
+                let __flatty_bytes = __flatty_bytes.get_unchecked_mut(..__flatty_len);
                 #body
             }
         }
@@ -280,6 +282,8 @@ pub fn impl_(ctx: &Context, input: &DeriveInput) -> TokenStream {
                         #set_tag
                         let __flatty_offset = <#self_ident<#self_args>>::DATA_OFFSET;
                         let __flatty_bytes = __flatty_bytes.get_unchecked_mut(__flatty_offset..);
+                        let __flatty_len = ::flatty::utils::floor_mul(__flatty_bytes.len(), <#self_ident<#self_args>>::ALIGN);
+                        let __flatty_bytes = __flatty_bytes.get_unchecked_mut(..__flatty_len);
                         #body
                     }
                 }
